@@ -248,7 +248,13 @@ class FixpointH(_Arr):
 
     def cases(self):
         import os
-        out = [{"rows": 1, "cols": 1}, {"rows": 2, "cols": 1}]
+        out = [{"rows": 1, "cols": 1}]
+        # two rows, one column: with both coefficients symbolic the obligations are non-linear and z3's answer was seen to
+        # flip between proved / proved-on-retry / unknown from run to run; the coefficient pair is enumerated instead
+        # (bounds, constants and the point stay symbolic, every query is linear)
+        for a0 in (-3, -1, 0, 1, 2):
+            for a1 in (-3, -1, 0, 1, 2):
+                out.append({"rows": 2, "cols": 1, "coef": [[a0], [a1]]})
         if os.environ.get("PYVC_TIER") == "thorough":
             # one row, two columns: the coefficient pair is enumerated over a small set (symbolic coefficients make the
             # obligations non-linear in two unknowns and the solver's answer load-dependent); bounds and constant stay symbolic
